@@ -463,8 +463,11 @@ func (c *FnCtx) evalIdx(env *SpecEnv, e *Expr) (Val, error) {
 	}
 	switch t := x.T.Underlying().(type) {
 	case *types.Map:
-		a := &Addr{Space: "V", Key: mapKeyOf(x.T), Idx: []string{x.S, c.specKeyTerm(env, i)}, T: t.Elem()}
-		return c.loadAt(env.heap, a), nil
+		kt := c.specKeyTerm(env, i)
+		a := &Addr{Space: "V", Key: mapKeyOf(x.T), Idx: []string{x.S, kt}, T: t.Elem()}
+		d := c.heapGet(env.heap, arrName("D", mapKeyOf(x.T), "", "Bool"))
+		// as in Go, a missing key reads as the zero value
+		return mergeVals(sel2(d, x.S, kt), c.loadAt(env.heap, a), zeroVal(t.Elem())), nil
 	case *types.Slice:
 		if x.K != KSlice {
 			return Val{}, fmt.Errorf("index on non-slice value in %s", e)
